@@ -434,10 +434,78 @@ def attr(base, name):
     return Poly.atom(('attr', a, name))
 
 
+def _scalar_index(k):
+    """k is certainly one integer (not a mask / index array / slice)"""
+    if not isinstance(k, Poly):
+        return False
+    if k.const_value() is not None:
+        return k.const_value().denominator == 1
+    for m, c in k.terms:
+        if Fraction(c).denominator != 1:
+            return False
+        for a, e in m:
+            if not is_integer_atom(a) or e < 0 or Fraction(e).denominator != 1:
+                return False
+    return True
+
+
+def _plain_slice(s):
+    return isinstance(s, Slice) and s.step in (NONE, None)
+
+
+def compose_keys(k1, k2):
+    """Key k with x[k1][k2] == x[k] for basic indexing, or None when not certain."""
+    i1 = list(k1.items) if isinstance(k1, Tup) and k1.kind != 'vec' else [k1]
+    i2 = list(k2.items) if isinstance(k2, Tup) and k2.kind != 'vec' else [k2]
+    if any(isinstance(i, Tup) for i in i1 + i2) or ELLIPSIS in i1 or ELLIPSIS in i2:
+        return None
+    if all(_scalar_index(i) for i in i1):
+        if all(_scalar_index(i) or _plain_slice(i) for i in i2):
+            return Tup(i1 + i2)
+        return None
+    if len(i1) == 1 and _plain_slice(i1[0]) and len(i2) >= 1 and isinstance(i1[0].lo, (Poly, Const)):
+        a = Poly.const(0) if i1[0].lo == NONE else i1[0].lo
+        b = i1[0].hi
+        f = i2[0]
+        if not isinstance(a, Poly):
+            return None
+        if _scalar_index(f) and f.const_value() is not None and f.const_value() >= 0:
+            first = a + f
+        elif _plain_slice(f):
+            c = Poly.const(0) if f.lo == NONE else f.lo
+            d = f.hi
+            if not (isinstance(c, Poly) and c.const_value() is not None and c.const_value() >= 0):
+                return None
+            if d == NONE:
+                hi = b
+            else:
+                if not (isinstance(d, Poly) and d.const_value() is not None and d.const_value() >= 0 and isinstance(b, Poly)):
+                    return None
+                width = (b - a).const_value()
+                if width is None or d.const_value() > width:
+                    return None
+                hi = a + d
+            first = Slice(a + c, hi)
+        else:
+            return None
+        rest = i2[1:]
+        if not all(_scalar_index(i) or _plain_slice(i) for i in rest):
+            return None
+        return first if not rest else Tup([first] + rest)
+    return None
+
+
 def index(base, key):
     a = base.single_atom() if isinstance(base, Poly) else None
     if a is None:
         a = ('val', base)
+    if a[0] == 'app' and a[1] == 'setitem' and len(a[2]) == 3 and a[2][1] == key and isinstance(a[2][2], Poly) \
+            and isinstance(key, (Poly, Slice, Tup)):
+        return a[2][2]            # read back what was just stored under the same key
+    if a[0] == 'idx' and a[1][0] in ('sym', 'attr', 'loop', 'iter') and isinstance(key, (Poly, Slice, Tup)):
+        k = compose_keys(a[2], key)
+        if k is not None:
+            return Poly.atom(('idx', a[1], k))
     return Poly.atom(('idx', a, key))
 
 
